@@ -15,10 +15,10 @@ for p in "$@"; do
   mkdir -p $d/repo && cp -r /repo/LDAR_Sim $d/repo/
   (cd / && git apply --unsafe-paths --directory $d/repo "$p" 2>/dev/null) || (cd $d/repo && patch -s -p1 < "$p")
   msg=""
-  for t in emission crew planner followup; do
+  for t in emission crew planner followup estimate; do
     LDAR_REPO=$d/repo /venv/bin/python -m harness.extract.${t}_src > $d/$t.json 2>$d/$t.err
     unt=$(/venv/bin/python -c "import json,sys; d=json.load(open('$d/$t.json')); print(','.join(d['untranslated']) or '-')" 2>/dev/null || echo "translator-failed")
-    case $t in emission) T=EmissionTie;; crew) T=CrewTie;; planner) T=PlannerTie;; followup) T=FollowUpTie;; esac
+    case $t in emission) T=EmissionTie;; crew) T=CrewTie;; planner) T=PlannerTie;; followup) T=FollowUpTie;; estimate) T=EstimateTie;; esac
     [ $t = emission ] && extra="LdarModel.Props.EmissionRecord" || extra=""
     fails=$(cd lean && lake build LdarModel.Props.$T 2>&1 | grep -E '^error: LdarModel' | sed "s/.*$T.lean:\([0-9]*\):.*/\1/" | sort -un | tr '\n' ' ')
     rec=""
@@ -31,5 +31,5 @@ for p in "$@"; do
   echo "$(echo $p | sed 's|.*/\(seeded\|seed3\)/||'): $msg"
   rm -rf $d
 done
-for t in emission crew planner followup; do /venv/bin/python -m harness.extract.${t}_src >/dev/null 2>&1; done
-(cd lean && lake build LdarModel.Props.EmissionTie LdarModel.Props.CrewTie LdarModel.Props.PlannerTie LdarModel.Props.FollowUpTie >/dev/null 2>&1) && echo "restored: ties build on /repo"
+for t in emission crew planner followup estimate; do /venv/bin/python -m harness.extract.${t}_src >/dev/null 2>&1; done
+(cd lean && lake build LdarModel.Props.EmissionTie LdarModel.Props.CrewTie LdarModel.Props.PlannerTie LdarModel.Props.FollowUpTie LdarModel.Props.EstimateTie >/dev/null 2>&1) && echo "restored: ties build on /repo"
